@@ -156,3 +156,25 @@ Definition dyn_ok (nc : ncfg) (d : dst) : Prop :=
 (* the names captured by a history, in order, with the index each capture gets *)
 Definition cap_names (h : list dop) : list fname :=
   flat_map (fun o => match o with DCapture _ _ n => [n] | _ => [] end) h.
+
+(* ------------------------------------------------------------------ initialize_backend(): where the shared default comes from
+
+   backend_name = os.environ.get(cls._ENV_DEFAULT_VAR, cls._default_backend)
+   if backend_name not in cls.available_backend_names: warn; backend_name = cls._default_backend
+   cls._default_backend = backend_name ; cls.set_backend(backend_name)
+   executed once, by the importing thread t0, with _backend = None and an empty thread-local store; name 0 is the
+   class's built-in default ("numpy" / "core").  `listed` = available_backend_names (known c = listed AND importable). *)
+Inductive iout :=
+| IOk (warned : bool) (s : st)       (* the package is imported; a UserWarning was / was not issued *)
+| IFail (warned : bool).             (* set_backend raised: `import tensorly` fails *)
+
+Definition pre_init (nm : name) : st :=
+  {| shared := Foreign 0 (* None *); dname := nm; tls := fun _ => None; loaded := fun _ => false; ctx := fun _ => [] |}.
+
+Definition initialize (R : rules) (c : cfg) (listed : name -> bool) (env : option name) (t0 : tid) : iout :=
+  let req := match env with Some n => n | None => 0 end in
+  let nm := if listed req then req else 0 in
+  match set_backend R c (pre_init nm) t0 (SName nm) false with
+  | Some s => IOk (negb (listed req)) s
+  | None => IFail (negb (listed req))
+  end.
